@@ -1,5 +1,6 @@
 (* C13/Properties.v — the property's clauses as theorems (statements only; proofs are in Proofs*.v). *)
-From Verif Require Import Common.Base C13.Model C13.Spec C13.Proofs1 C13.Proofs2.
+From Verif Require Import Common.Base C13.Model C13.Spec C13.Proofs1 C13.Proofs2 C13.Proofs3 C13.Proofs4 C13.Instances.
+From Verif Require Import Generated.C13CfgSchema.
 From Coq Require Import String.
 
 (* ---- "Every validation rule of every nested configuration value is evaluated, so an invalid
@@ -92,3 +93,90 @@ Print Assumptions dangling_extension_rejected.
 Theorem load_validation_exact : forall g c errs, outcome g c errs -> (errs = [] <-> wf g c).
 Proof. exact outcome_nil_iff_wf. Qed.
 Print Assumptions load_validation_exact.
+
+(* ---- "A key that no field accepts at any depth of any built-in component or of the service
+        section ... is rejected with an error naming the offending entry" ------------------- *)
+
+(* for EVERY type descriptor and EVERY configuration value: a written key that no field of its
+   struct level accepts (after squash flattening; the level having no `,remain` field), at any
+   depth through fields, pointers, slice elements and map entries, makes the decode fail and is
+   reported with exactly the path of its level *)
+Theorem decode_strict : forall t v p k,
+  unk t v p k -> decode_strict_ok t v = false /\ In (p, k) (unused t v).
+Proof. exact decode_strict_l. Qed.
+Print Assumptions decode_strict.
+
+(* conversely nothing else is reported: every reported (path, key) is such an unknown key *)
+Theorem decode_strict_sound : forall t v p k, In (p, k) (unused t v) -> unk t v p k.
+Proof. intros t v. exact (unused_sound_l v t). Qed.
+Print Assumptions decode_strict_sound.
+
+Theorem decode_accepts_iff_no_unknown : forall t v,
+  decode_strict_ok t v = true <-> forall p k, ~ unk t v p k.
+Proof. exact decode_strict_ok_iff. Qed.
+Print Assumptions decode_accepts_iff_no_unknown.
+
+(* instances on the descriptors dumped from the current tree (translator T3) *)
+Theorem decode_strict_builtin : forall name T v p k,
+  In (name, T) schema -> unk T v p k -> decode_strict_ok T v = false /\ In (p, k) (unused T v).
+Proof. exact decode_strict_builtin_l. Qed.
+Print Assumptions decode_strict_builtin.
+
+Theorem schema_entries : list_eqb String.eqb (map fst schema) expected_entries = true.
+Proof. exact schema_entries_l. Qed.
+Print Assumptions schema_entries.
+
+Theorem custom_nodes_listed : forallb (fun c => str_mem c known_custom) custom_types = true.
+Proof. exact custom_nodes_listed_l. Qed.
+Print Assumptions custom_nodes_listed.
+
+Theorem schema_squash_disjoint : forallb (fun e => squash_keys_disjoint (snd e)) schema = true.
+Proof. exact schema_squash_disjoint_l. Qed.
+Print Assumptions schema_squash_disjoint.
+
+Theorem schema_no_remain : forallb (fun e => no_remain (snd e)) schema = true.
+Proof. exact schema_no_remain_l. Qed.
+Print Assumptions schema_no_remain.
+
+(* ---- "Loading a configuration gives every component its factory defaults overlaid by exactly
+        the keys the user wrote ... writing one setting never changes the value of a sibling" -- *)
+
+(* for EVERY default configuration tree and EVERY written configuration: a scalar written at a
+   leaf path of the defaults is the value of that leaf after the load *)
+Theorem decode_faithful_written : forall d m p s0 s,
+  leaf_at d p s0 -> written m p s -> leaf_at (overlay d m) p s.
+Proof. exact decode_written_l. Qed.
+Print Assumptions decode_faithful_written.
+
+(* a leaf at which nothing (or null) was written keeps its factory default *)
+Theorem decode_faithful_unwritten : forall d m p s0,
+  leaf_at d p s0 -> unwritten m p -> leaf_at (overlay d m) p s0.
+Proof. exact decode_unwritten_l. Qed.
+Print Assumptions decode_faithful_unwritten.
+
+(* the load neither adds nor removes settings *)
+Theorem decode_faithful_same_leaves : forall d m p s, leaf_at (overlay d m) p s -> exists s0, leaf_at d p s0.
+Proof. exact overlay_leaf_paths. Qed.
+Print Assumptions decode_faithful_same_leaves.
+
+(* agreement form for the generic overlay: two configurations that have the same thing (a scalar,
+   null or nothing) at q give q the same value, whatever else they write *)
+Theorem decode_overlay_agrees_at : forall d m m' q s0,
+  leaf_at d q s0 -> cv_get q m = cv_get q m' -> tv_get q (overlay d m) = tv_get q (overlay d m').
+Proof. exact decode_sibling_l. Qed.
+Print Assumptions decode_overlay_agrees_at.
+
+(* FULL sibling independence, for the complete decode of every component — the generic overlay AND
+   the component-specific Unmarshal rules (unwritten OTLP-receiver protocol becomes nil; deprecated
+   sending_queue::blocking alias, as repaired by a5b2af88a): a setting the user wrote has exactly
+   the written value after the load, whatever siblings were written as well *)
+Theorem decode_sibling_independent : forall name d m p s0 s,
+  leaf_at d p s0 -> written (Some m) p s -> leaf_at (decode_model name d m) p s.
+Proof. exact decode_model_written_l. Qed.
+Print Assumptions decode_sibling_independent.
+
+Theorem decode_sibling_independent_agree : forall name d m m' q s0 s,
+  leaf_at d q s0 -> written (Some m) q s -> written (Some m') q s ->
+  tv_get q (decode_model name d m) = tv_get q (decode_model name d m').
+Proof. exact decode_model_sibling_l. Qed.
+Print Assumptions decode_sibling_independent_agree.
